@@ -617,7 +617,7 @@ def M_strip(t):
 
 
 def main(rep, tier, only):
-    db = load.load(tier, lib=False, drivers=["drv_oev"])
+    db = load.load(tier, lib=False, drivers=["drv_oev"], tests=False)   # the rule tables are defined over the driver's instantiation registry (DESIGN §3)
     rep.extra.update(db.stats())
     spec = json.load(open(os.path.join(P.VERIF, "specs", "C04-tables.json")))
     cfg = sx.Config(inline_prefixes=INLINE, loop_bound=2, std_search=True)
